@@ -21,7 +21,7 @@ checks = {
    text="Fault enumeration: EVERY truncation point of every base text plus seeded substitutions, insertions, deletions and sector faults; lexer and parser tasks run on a simulated tick clock, 'does not finish' is a deterministic replayable outcome (budget 200 x base + 1e6 ticks), confirmed against the real CLI with a 10 s deadline before it is reported.",
    note="Assumes every loop carries a tick (instrumenter adds them generically) and that 200x the base's ticks is beyond any terminating run.", ref="5 C13"),
  "C14": dict(level="exploration", engine="A", technique=TECH + "; oracle: byte equality of output files across schedules, regenerations and real CLI processes",
-   text="Seeded exploration: for each grammar x 5 output variants the output bytes under canonical, reverse, rotated and shuffled map-iteration schedules (every range-over-map of the tree is behind the seam) must be identical; same-process regeneration and N separate runs of the uninstrumented CLI close the gap to real executions. A violation names the map-range sites whose order changes the bytes.",
+   text="Seeded exploration: for each grammar x 7 option sets (the 5 output variants and the web-debugger builds -d, -o -d) the output bytes under canonical, reverse, rotated and shuffled map-iteration schedules (every range-over-map of the tree is behind the seam) must be identical; same-process regeneration and N separate runs of the uninstrumented CLI close the gap to real executions. A violation names the map-range sites whose order changes the bytes.",
    note="Real Go map iteration realises a subset of the simulated orders; un-owned nondeterminism sources are listed by the seam audit and caught by the real-CLI comparison.", ref="5 C14"),
 }
 
@@ -53,7 +53,7 @@ checks.update({
    text="Seeded exploration: usable grammars of all families must be processed under every schedule and variant; grammars with exactly one injected defect (undefined, rule-less, unproductive, mutually recursive, unreachable, at the start symbol, next to nullable ones, deep) must be refused with a diagnostic and without writing output.",
    note="'Says why' = a non-empty diagnostic that is not a Go runtime error.", ref="5 C12"),
  "C15": dict(level="exploration", engine="B", technique=TECHB + "; oracle: per-parse equality with the same input parsed alone",
-   text="Seeded exploration over histories (init/new + parse of accepted, rejected and lexer-fails-at-i inputs) on every variant and over seeded interleavings of 2-4 -o contexts advanced one yield point at a time (uniform, burst, switch-after-reduce), half with the trace on; every parse must equal the same input parsed alone (verdict, reductions, tokens requested, value, values handed to the lexer, trace).",
+   text="Seeded exploration over histories (init/new + parse of accepted, rejected and lexer-fails-at-i inputs) on every variant and over seeded interleavings of 2-4 -o contexts advanced one yield point at a time (uniform, burst, switch-after-reduce), half with the trace on, and over parses of the global Go form suspended at a seeded reduction for a nested parse (PushContex / ParserInit / Parser / PopContex from the action, up to two levels); every parse must equal the same input parsed alone (verdict, reductions, tokens requested, value, values handed to the lexer, trace).",
    note=RM + " Parts (a)/(b): exactly one context runs at a time (cooperative seeded scheduler), exactly replayable. Part (c): some batches also run the contexts in parallel goroutines in a -race build; a race report in generated code is a violation flagged not exactly replayable.", ref="5 C15"),
  "C16": dict(level="exploration", engine="B", technique=TECHB + "; oracle: the real go build of every output, node load after type erasure",
    text="Seeded exploration: grammars with any printable literal, long rules ($10+), empty rules, comments in actions, every tag shape and layout are generated in all variants with exactly the prologue/epilogue the statement names; every output yaccgo reports success for is compiled by go build, TypeScript outputs are loaded by node.",
@@ -65,7 +65,7 @@ checks.update({
    text="Seeded exploration: the debug listing (captured stdout of the real debug path) and the DOT text of DrawGrammar are parsed and compared with the item sets, transitions, lookaheads and dense table of the same run under several schedules.",
    note="The -g path itself needs `dot` (absent); the DOT text is taken before it would be piped.", ref="5 C18"),
  "C19": dict(level="fault_enumeration", engine="A", technique="deterministic simulation with fault injection: enumerated input-caused failure stages x placements x variants x schedules, file-system effects recorded behind the fs seam",
-   text="Fault enumeration: every input-caused failure kind the code has (lexical, missing %%, rule syntax, unterminated action/comment, undefined, rule-less, unproductive, $n out of range, $0, >=2000 states) early/late x 5 variants x schedules with a pre-existing (short or long) output file; oracle = bytes of the file and the ordered history of effects on its path; successful runs must leave exactly the fresh-path bytes ending with the epilogue.",
+   text="Fault enumeration: every input-caused failure kind the code has (lexical, missing %%, rule syntax, unterminated action/comment, undefined, rule-less, unproductive, $n out of range, $0, >=2000 states) early/late x 5 variants x schedules with a pre-existing output file (short or long sentinel text, or the earlier output of the same grammar, identical or with more code at its end); oracle = bytes of the file and the ordered history of effects on its path; successful runs must leave exactly the fresh-path bytes ending with the epilogue.",
    note="Disk faults and kill-at-arbitrary-instant are outside the statement and not injected.", ref="5 C19"),
 })
 checks["C05"]["engine"]="A"
